@@ -299,6 +299,11 @@ def live(entry, st):
 
 
 # ------------------------------------------------------------------------------------------------ direct oracle
+# genuine, unrepaired behaviours of ev/select, reported under these exact signatures (known_findings.json)
+LOSING_GIVE = "select-losing-give-clause-value-delivered"
+SELF_MATCH = "select-self-match-leaves-registration"
+KNOWN_KINDS = (LOSING_GIVE, SELF_MATCH)
+
 def oracle(prog, verdict, log):
     """Check the statements of C06 on one implementation event log.  Returns (list of failures, stats).
     failure = (kind, text)."""
@@ -361,7 +366,19 @@ def oracle(prog, verdict, log):
         recv_order.setdefault((g, f, c), []).append((gi, v))
 
     cancelled = {}           # fiber -> index of the E event of the ev/cancel that hit it
+    completed = set()        # fibers whose operation result was just logged: running on, or finished - never registered
     for idx, e in enumerate(ev):
+        if completed and e[0] in "BLF":
+            stx = e[3] if e[0] == "B" else e[1]
+            for c0, ch0 in stx["chans"].items():
+                for cf in sorted(completed):
+                    mine = [x for x in ch0["r"] + ch0["w"] if x[0] == cf and live(x, stx)]
+                    if mine:
+                        fails.append((SELF_MATCH, "fiber %d has a current registration %r on channel %d although its operation has "
+                                      "returned (left behind by a select that was matched with itself)" % (cf, mine, c0)))
+            completed = set()
+        if e[0] == "E":
+            completed.add(e[1])
         if e[0] in "BE" and e[1] in cancelled:
             fails.append(("resumed-after-cancel", "fiber %d was cancelled (event %d) while suspended, yet its code ran on: %s %d %d"
                           % (e[1], cancelled[e[1]], e[0], e[1], e[2])))
@@ -374,6 +391,11 @@ def oracle(prog, verdict, log):
             _, f, i, st = e
             last_state = st
             check_state(st, "B %d %d" % (f, i))
+            for c0, ch0 in st["chans"].items():
+                mine = [x for x in ch0["r"] + ch0["w"] if x[0] == f and live(x, st)]
+                if mine:
+                    fails.append((SELF_MATCH, "fiber %d begins op %d while it still has a current registration %r on channel %d "
+                                  "(left behind by a select that was matched with itself)" % (f, i, mine, c0)))
             for q in st["q"]:      # a task whose expected sched_id is no longer its fiber's: the filter must drop it
                 parts = q.split(":")
                 try:
@@ -489,11 +511,14 @@ def oracle(prog, verdict, log):
         idxs = [gi for gi, v in seq]
         if idxs != sorted(idxs):
             fails.append(("fifo", "values from fiber %d to fiber %d on channel %d arrived out of order: %r" % (g, t, c, seq)))
-    # statistic: value of a select's losing give clause delivered anyway (janet enqueues at registration)
-    for v, (tf, ti) in received_vals.items():
+    # a select that completed through one clause has nevertheless enqueued the value of another give clause, and
+    # that value is delivered (janet enqueues at registration and never takes it back)
+    for v, (tf, ti) in sorted(received_vals.items()):
         g, gi, gc, is_sel = offered.get(v, (None, None, None, False))
-        if is_sel and (g, gi) in select_result and select_result[(g, gi)] != "give:%d" % gc:
+        if is_sel and (g, gi) in select_result and select_result[(g, gi)] != "give:%d" % gc and (tf, ti) != (g, gi):
             stats["losing_give_delivered"] += 1
+            fails.append((LOSING_GIVE, "fiber %d op %d received %d, offered by the give clause on channel %d of the select of fiber %d op %d, "
+                          "which returned %s" % (tf, ti, v, gc, g, gi, select_result[(g, gi)])))
     # end of run
     final = ev[-1][1] if ev and ev[-1][0] == "F" else None
     if final is None or final["st"] is None:
@@ -510,6 +535,12 @@ def oracle(prog, verdict, log):
             fails.append(("abnormal-run", "fiber %d ended in state %s" % (f, s)))
     for f in expect_close:
         fails.append(("close-did-not-wake", "fiber %d was waiting on channel %d when it was closed and was never resumed" % (f, expect_close[f][1])))
+    for f, s0 in enumerate(final["st"]):
+        if s0 != "suspended":
+            for c0, ch0 in final["chans"].items():
+                mine = [x for x in ch0["r"] + ch0["w"] if x[0] == f and live(x, final)]
+                if mine:
+                    fails.append((SELF_MATCH, "fiber %d ended (%s) with a current registration %r on channel %d" % (f, s0, mine, c0)))
     susp = [f for f, s in enumerate(final["st"]) if s == "suspended"]
     if verdict == "ok" and (susp or final["lc"] != 0):
         fails.append(("abnormal-run", "loop finished with suspended fibers %r / listener count %r" % (susp, final["lc"])))
